@@ -25,13 +25,16 @@ META = {
                   'representative-complete lookups are judged by TLC.  Every real router runs next to a shadow router '
                   'that only receives the accepted adds, so a rejected add that is not a no-op is told apart from a '
                   'disagreement about acceptance rules.',
-    'level_note': 'Bounded: exhaustive for <= 3 add_route calls over templates of <= 2 segments from 8 template segments '
-                  '(thorough: 10) and all paths of <= 3 segments over 7 representatives; random tables of <= 40 templates, '
-                  'depth <= 4 beyond.  Trusted: TLC, CPython int()/float()/uuid.UUID()/strptime() (the converter table CT is '
-                  'computed with them over every substring of the path segments used), str() of converted values.  '
-                  'Not covered: path segments containing a newline, backslash or braces (regular-expression corner of '
-                  'multi-field segments), float converters with min/max, custom converters, responder-suffix/method-map '
-                  'handling of add_route.',
+    'level_note': 'Bounded: exhaustive for all histories of <= 2 add_route calls (thorough: <= 3) over the templates of <= 2 '
+                  'segments from 8 template segments (thorough also 10) with all paths of <= 3 segments over 5 (7) '
+                  'representatives; simulated histories of <= 7 adds / 12 calls over 19 segments; random tables of <= 40 '
+                  'templates of depth <= 4 with 200 lookups each beyond.  Trusted: TLC, CPython '
+                  'int()/float()/uuid.UUID()/strptime() (the converter table CT is computed with them over every substring '
+                  'of the path segments used), str() of converted values, a second real router as shadow.  Not covered: '
+                  'path segments containing a newline, backslash or braces (regular-expression corner of multi-field '
+                  'segments), float converters with min/max, custom converters, responder-suffix/method-map handling of '
+                  'add_route, concurrency of the lazy compile (C19).  The action-coverage guard runs on the same state '
+                  'graph with one-segment paths because TLC -coverage cannot digest the recursive Lookup operator.',
 }
 
 import datetime
@@ -691,9 +694,17 @@ def run(ctx):
         raise MachineryError('MC_Router printed no decision table')
     ctx.extra['decision_table_states'] = len(tables)
     ctx.progress('leg M: %d states, %d table states' % (r.distinct, len(tables)))
+    big = None
     if not ctx.quick:
         r3 = ctx.tlc('MC_Router', 'MC_RouterT.cfg', env=env, workers=W, timeout=3000)
-        ctx.progress('leg M (3 adds): %d states' % r3.distinct)
+        ctx.progress('leg M (3 adds, paths <= 2): %d states' % r3.distinct)
+        # the larger universe: two multi-field shapes that match one representative (insertion order
+        # decides), a converter inside a multi-field segment
+        ut, pst = mc_universe(True)
+        utpath = ut.write(os.path.join(ctx.scratch, 'mc_universe_t.json'), pst)
+        r4 = ctx.tlc('MC_Router', 'MC_Router.cfg', env={'ROUTER_UNIVERSE': utpath}, workers=W, timeout=3000)
+        big = (ut, pst, load_tables(r4.json))
+        ctx.progress('leg M (10 template segments): %d states, %d table states' % (r4.distinct, len(big[2])))
     # vacuity: each wrong-design switch must break its invariant
     for cfg, inv in (('MC_RouterBadRollback.cfg', 'RejectIsNoOp'), ('MC_RouterBadReset.cfg', 'FindIsIdealDFS')):
         rb = ctx.tlc('MC_Router', cfg, env=env, workers=4, timeout=600, must_hold=False, count=False)
@@ -703,28 +714,31 @@ def run(ctx):
     ctx.progress('vacuity runs done')
 
     # ---- leg A1: the decision table replayed: every history of <= 2 adds, complete lookup tables ----
-    rp = Replayer(ctx, u)
     rng = ctx.rng
-    tps = all_templates(u, 2)
-    moves = [(tp, c) for tp in tps for c in (False, True)]
-    P2, P3 = all_paths(ps, 2), all_paths(ps, 3)
-    P3only = P3[len(P2):]
-    nsample = ctx.pick(15, 60)
-    n = 0
-    for m1 in moves:
-        for m2 in moves:
-            n += 1
-            final = P2 + rng.sample(P3only, nsample)
-            mid = rng.sample(P2, 5) if n % 2 else []
-            replay_history(rp, u, tables, [m1, m2], final, mid, 'decision-table')
-    if not ctx.quick:         # longer histories: the table covers the states with <= 2 accepted adds
-        for _ in range(30000):
-            hist = [rng.choice(moves) for _ in range(rng.randint(3, 5))]
-            replay_history(rp, u, tables, hist, rng.sample(P3, 40), rng.sample(P2, 4), 'decision-table-long')
+    n = lookups = 0
+    for uu, pp, tabs in [(u, ps, tables)] + ([big] if big else []):
+        rp = Replayer(ctx, uu)
+        tps = all_templates(uu, 2)
+        moves = [(tp, c) for tp in tps for c in (False, True)]
+        P2, P3 = all_paths(pp, 2), all_paths(pp, 3)
+        P3only = P3[len(P2):]
+        nsample = ctx.pick(15, 40)
+        for m1 in moves:
+            for m2 in moves:
+                n += 1
+                final = P2 + rng.sample(P3only, nsample)
+                mid = rng.sample(P2, 5) if n % 2 else []
+                replay_history(rp, uu, tabs, [m1, m2], final, mid, 'decision-table')
+        if not ctx.quick:     # longer histories: the table covers the states with <= 2 accepted adds
+            for _ in range(15000):
+                n += 1
+                hist = [rng.choice(moves) for _ in range(rng.randint(3, 5))]
+                replay_history(rp, uu, tabs, hist, rng.sample(P3, 40), rng.sample(P2, 4), 'decision-table-long')
+        lookups += rp.lookups
+        ctx.progress('leg A1: %d histories, %d lookups so far' % (n, lookups))
     ctx.traces_validated += n
     ctx.extra['decision_table_histories'] = n
-    ctx.extra['decision_table_lookups'] = rp.lookups
-    ctx.progress('leg A1: %d histories, %d lookups' % (n, rp.lookups))
+    ctx.extra['decision_table_lookups'] = lookups
 
     # ---- leg A2: simulated add/find histories of a larger universe --------------------------------
     us, pss = sim_universe()
@@ -770,6 +784,12 @@ def run(ctx):
     ctx.progress('leg B: %d tables, %d events recorded, %d template segments' % (len(items), nev, len(ub.ts)))
     judge_traces(ctx, ub, items, W)
     ctx.extra['random_tables_judged'] = len(items)
+    stats = {}
+    for evs, _ in items:
+        for e in evs:
+            k = '%s:%s' % (e['op'], e['out'])
+            stats[k] = stats.get(k, 0) + 1
+    ctx.extra['random_table_event_kinds'] = stats
     ctx.extra['random_table_events'] = nev
     ctx.progress('leg B judged')
 
